@@ -1,6 +1,7 @@
 //! bpharness — correspondence harness for the Coq model of ark-bulletproofs.
 //! Built against /repo's working tree with --cfg ark_bulletproofs_verif and the instrumented Merlin.
 mod ast;
+mod comp_batch;
 mod comp_ipp;
 mod comp_lc;
 mod comp_ped;
@@ -142,6 +143,18 @@ fn cmd_msmcheck2(args: &[String]) {
     println!("MSMCHECK total={} bad={}", n, bad);
 }
 
+fn gen_batch_curve<G: AffineRepr>(curve: &str, ci: u64, seed: u64, tier: &str, sink: &mut Sink) {
+    let modulus = modulus_of::<G>();
+    for o in comp_batch::gen_and_run::<G>(curve, ci, &modulus, seed, tier) {
+        let sh = sink.next % sink.shards.len();
+        sink.next += 1;
+        sink.shards[sh].push_str(&o.coq);
+        sink.order.push((sh, o.id.clone()));
+        sink.impl_obs.push_str(&o.obs);
+        sink.summary.push_str(&o.summary);
+    }
+}
+
 fn cmd_gen(args: &[String]) {
     let comp = args.get(0).expect("component").clone();
     let seed: u64 = arg(args, "--seed", "1").parse().unwrap();
@@ -166,6 +179,14 @@ fn cmd_gen(args: &[String]) {
                     continue;
                 }
                 with_curve!(*curve, gen_r1cs_curve, curve, ci as u64, seed, &tier, &streams, &mut sink);
+            }
+        }
+        "batch" => {
+            for (ci, curve) in CURVES.iter().enumerate() {
+                if !curves_s.split(',').any(|c| c == *curve) {
+                    continue;
+                }
+                with_curve!(*curve, gen_batch_curve, curve, ci as u64, seed, &tier, &mut sink);
             }
         }
         "ipp" => {
@@ -198,6 +219,7 @@ fn cmd_gen(args: &[String]) {
     }
     let header = match comp.as_str() {
         "r1cs" => "Require Import BP.Run.R1cs.\nSet Printing Width 2000000000.\nSet Printing Depth 2000000000.\n",
+        "batch" => "Require Import BP.Run.R1cs.\nSet Printing Width 2000000000.\nSet Printing Depth 2000000000.\n",
         "ipp" => "Require Import BP.Run.Ipp.\nSet Printing Width 2000000000.\nSet Printing Depth 2000000000.\n",
         "ped" => "Require Import BP.Run.Ped.\nSet Printing Width 2000000000.\nSet Printing Depth 2000000000.\n",
         "lc" => "Require Import BP.Run.Lc.\nSet Printing Width 2000000000.\nSet Printing Depth 2000000000.\n",
